@@ -265,3 +265,21 @@ def to_opt(v: Val, ty: Ty) -> Val:
     if v.ty.kind == "opt":
         return Val(ty, v.t, none=v.none, items=v.items)
     return Val(ty, v.t, none=z3.BoolVal(False), items=v.items)
+
+
+ALLOC_CONSTS: Dict[int, int] = {}      # z3 ast id of a reference constant handed out by the executor's allocator -> serial number
+
+
+def sel(arr, idx):
+    """Select with the store axioms applied syntactically: Store(a, i, v)[i] -> v, and Store(a, i, v)[j] -> a[j] when i and j are two
+    different references handed out by the allocator (distinct by construction: their birth times differ).  Keeps heap terms small;
+    anything else is left to the solver."""
+    while z3.is_app(arr) and arr.decl().kind() == z3.Z3_OP_STORE:
+        i = arr.arg(1)
+        if i.eq(idx):
+            return arr.arg(2)
+        if i.get_id() in ALLOC_CONSTS and idx.get_id() in ALLOC_CONSTS:
+            arr = arr.arg(0)
+            continue
+        break
+    return z3.Select(arr, idx)
